@@ -24,10 +24,21 @@ def shards(tier):
         vs = list(dsl.lens_vectors(4, 3))
     else:
         vs = list(dsl.lens_vectors(5, 3)) + [v for v in dsl.lens_vectors(3, 5) if max(v, default=0) > 3]
-    return [{"lens": v} for v in vs]
+    return [{"lens": v} for v in vs] + [{"big": 1}]
+
+
+BIG = {"inf": [1.0, float("inf"), 2.0, 3.0, 0.5], "1e16": [1e16, 1.0, 1.0, 2.0, 0.25]}
 
 
 def cases(shard, tier):
+    if "big" in shard:
+        # named float inputs on which a scan computed through ONE global prefix sum cannot be row-independent
+        for lens in ([2, 2], [1, 2], [1, 0, 2], [2, 3]):
+            for k in ("inf", "1e16"):
+                for dt in ("float64", "float32"):
+                    for op in ("add.acc", "sub.acc"):
+                        yield [lens, dt, k, op]
+        return
     lens = shard["lens"]
     dts = DT_Q if tier == "quick" else DT_Q + ["int16", "int32", "float32"]
     nmax = 4 if tier == "quick" else 6
@@ -52,7 +63,7 @@ def check(case, acc):
             acc.feature("empty_row_last")
         if size == 0:
             acc.feature("all_rows_empty")
-    flat = dsl.pattern(dt, size, k)
+    flat = dsl.pattern(dt, size, k) if not isinstance(k, str) else np.array(BIG[k][:size], dtype=dt)
     rows = dsl.split_rows(flat, lens)
     for a, b in zip(rows, rows[1:]):
         if len(a) and len(b) and a[-1] == b[0]:
@@ -104,7 +115,10 @@ def check(case, acc):
         if not lenient_refusal:
             acc.fail("refused", exp, obs, classifier=_classify(op, lens))
     elif obs != exp:
-        acc.fail("wrong-rows", exp, obs, classifier=_classify(op, lens))
+        cl = _classify(op, lens)
+        if isinstance(k, str) and obs[0] == "R" and len(obs[2]) == len(lens) and obs[2][0] == exp[2][0]:
+            cl = "c07.float-accumulate-through-global-prefix-sum"       # first row right, a later row poisoned by an earlier one
+        acc.fail("wrong-rows", exp, obs, classifier=cl)
     post = observe(lambda: ra)
     if post != R(rows):
         acc.fail("operand-modified", R(rows), post)
